@@ -49,8 +49,47 @@ def check_combo(args):
     lookups = 0
     bad = []
     nontrivial = 0
+    singles = [q for q in queries if "." not in q]
+
+    def compare(t, g, inserted, qs, history):
+        nonlocal lookups, nontrivial
+        for q in qs:
+            lookups += 1
+            got_list = [x.params["name"] for x in t.get(q)]
+            exp = naive(inserted, q)
+            cont = q in t
+            byname = sorted(x.params["name"] for x in g.get_nodes_by_name(q))
+            if exp:
+                nontrivial += 1
+            if sorted(got_list) != exp or cont != bool(exp) or byname != exp or len(got_list) != len(set(got_list)):
+                if len(bad) < 5:
+                    bad.append({"inserted": list(inserted), "query": q, "get": got_list, "contains": cont, "get_nodes_by_name": byname, "expected": exp,
+                                "history": history})
+
     for combo in combos:
         for order in itertools.permutations(combo):
+            # histories with lookups interleaved between the insertions: (B) every query before every insertion, (C) one membership test or
+            # one lookup of a single variant at one position; a lookup must never change what later insertions and lookups do
+            t, g = PrefixTree(), TestGraph()
+            for i, n in enumerate(order):
+                compare(t, g, order[:i], queries, f"all queries before insertion {i}")
+                node = N(n)
+                t.insert(node)
+                g.nodes_index.insert(node)
+            compare(t, g, order, queries, "all queries before every insertion")
+            if len(order) <= 2:
+                for pos in range(len(order)):
+                    for probe in singles:
+                        for kind in ("in", "get"):
+                            t, g = PrefixTree(), TestGraph()
+                            for i, n in enumerate(order):
+                                if i == pos:
+                                    (probe in t) if kind == "in" else t.get(probe)
+                                    (probe in g.nodes_index) if kind == "in" else g.get_nodes_by_name(probe)
+                                node = N(n)
+                                t.insert(node)
+                                g.nodes_index.insert(node)
+                            compare(t, g, order, [q for q in queries if q.count(".") <= 1], f"{kind} {probe!r} before insertion {pos}")
             t = PrefixTree()
             g = TestGraph()
             for n in order:
